@@ -330,9 +330,9 @@ Definition fair (sch : schedule) : Prop := forall g n, Permutation (sch g n) (se
 Lemma serial_fair : fair serial.
 Proof. intros g n. apply Permutation_refl. Qed.
 
-Lemma finish_fair P sch g off s c : fair sch -> finish P sch g off s c = finish P serial g off s c.
+Lemma evaluate_fair P sch g off : fair sch -> evaluate P sch g off = evaluate P serial g off.
 Proof.
-  intro F. unfold finish.
+  intro F. unfold evaluate.
   assert (E : forall sc, Permutation sc (seq 0 (length (invalid_of off))) ->
               pmap sc (evalw P) (map genome (invalid_of off)) =
               map (fun x => Some (evalw P x)) (map genome (invalid_of off))).
@@ -342,11 +342,15 @@ Qed.
 
 Lemma step_fair P sch op s : fair sch -> step P sch op s = step P serial op s.
 Proof.
-  intro F. destruct op as [|g]; cbn [step].
-  - apply finish_fair, F.
+  intro F. destruct op as [|g|g|g]; cbn [step].
+  - rewrite (evaluate_fair P sch 0 _ F). reflexivity.
   - destruct (sel_tournament P (st_pop s) (length (st_pop s)) (st_cur s)) as [sel c1].
     destruct (mate_loop P sel c1) as [m c2]. destruct (mut_loop P m c2) as [u c3].
-    apply finish_fair, F.
+    rewrite (evaluate_fair P sch g _ F). reflexivity.
+  - destruct (var_or P (st_pop s) (p_lambda P) (st_cur s)) as [off c1].
+    rewrite (evaluate_fair P sch g _ F). reflexivity.
+  - destruct (var_or P (st_pop s) (p_lambda P) (st_cur s)) as [off c1].
+    rewrite (evaluate_fair P sch g _ F). reflexivity.
 Qed.
 
 Theorem run_schedule_independent P sch1 sch2 gs s :
@@ -397,20 +401,19 @@ Proof. intro E. apply save_injective in E. subst. reflexivity. Qed.
 (* ------------------------------------------------------------------------------------------ *)
 (* generator accounting of the GA step                                                        *)
 (* ------------------------------------------------------------------------------------------ *)
-Lemma finish_np P sch g off s c : st_npcur (finish P sch g off s c) = st_npcur s.
-Proof. reflexivity. Qed.
-Lemma finish_cur P sch g off s c : st_cur (finish P sch g off s c) = c.
-Proof. reflexivity. Qed.
-Lemma finish_payload P sch g off s c :
-  st_strat (finish P sch g off s c) = st_strat s /\ st_selmem (finish P sch g off s c) = st_selmem s.
-Proof. split; reflexivity. Qed.
+(* destruct the operation and every intermediate pair of a step *)
+Ltac step_cases op :=
+  destruct op as [|?g|?g|?g]; cbn [step];
+  repeat match goal with
+         | |- context [let (_, _) := ?e in _] => destruct e as [? ?] eqn:?
+         end.
 
 Lemma step_np P sch op s : st_npcur (step P sch op s) = st_npcur s.
-Proof.
-  destruct op; cbn [step]; [apply finish_np|].
-  destruct (sel_tournament _ _ _ _) as [sel c1]. destruct (mate_loop _ _ _) as [m c2].
-  destruct (mut_loop _ _ _) as [u c3]. apply finish_np.
-Qed.
+Proof. step_cases op; reflexivity. Qed.
+
+Lemma step_payload P sch op s :
+  st_strat (step P sch op s) = st_strat s /\ st_selmem (step P sch op s) = st_selmem s.
+Proof. step_cases op; split; reflexivity. Qed.
 
 Lemma draw_choices_cur P pop n c : snd (draw_choices P pop n c) = c + Z.of_nat n.
 Proof.
@@ -463,18 +466,41 @@ Proof.
   - specialize (IH (c + 1)). destruct (mut_loop P l (c + 1)) as [r' c2]. cbn [snd length] in *. lia.
 Qed.
 
-(* the generator cursor never moves backwards; a generation consumes at least
-   len(pop)*tournsize draws (selection) + len(pop) (mutation decisions) *)
+Lemma var_or_cur P pop k c : c <= snd (var_or P pop k c).
+Proof.
+  revert c; induction k as [|k IH]; intro c; cbn [var_or]; [cbn; lia|].
+  destruct (rnd_lt P c (p_cxpb P)).
+  - destruct (sample2 P pop (c + 1)) as [a b].
+    specialize (IH (c + 4)). destruct (var_or P pop k (c + 4)) as [r c']. cbn [snd] in *. lia.
+  - destruct (rnd_lt_sum P c (p_cxpb P) (p_mutpb P)).
+    + pose proof (flip_loop_cur P (genome (nth (Z.to_nat (draw P (c + 1) mod zlen pop)) pop dflt_ind)) (c + 2)) as Fl.
+      destruct (flip_loop P _ (c + 2)) as [g' c1]. cbn [snd] in Fl.
+      specialize (IH c1). destruct (var_or P pop k c1) as [r c']. cbn [snd] in *. unfold zlen in Fl. lia.
+    + specialize (IH (c + 2)). destruct (var_or P pop k (c + 2)) as [r c']. cbn [snd] in *. lia.
+Qed.
+
+(* the generator cursor never moves backwards *)
 Theorem step_cursor_monotone P sch op s : st_cur s <= st_cur (step P sch op s).
 Proof.
-  destruct op as [|g]; cbn [step]; [rewrite finish_cur; lia|].
-  pose proof (sel_tournament_cur P (st_pop s) (length (st_pop s)) (st_cur s)) as S1.
-  destruct (sel_tournament _ _ _ _) as [sel c1]. cbn [snd] in S1.
-  pose proof (mate_loop_cur P sel c1) as S2.
-  destruct (mate_loop _ _ _) as [m c2]. cbn [snd] in S2.
-  pose proof (mut_loop_cur P m c2) as S3.
-  destruct (mut_loop _ _ _) as [u c3]. cbn [snd] in S3.
-  rewrite finish_cur. unfold zlen in *. nia.
+  destruct op as [|g|g|g]; cbn [step].
+  - destruct (evaluate P sch 0 (st_pop s)) as [off' n]. cbn. lia.
+  - pose proof (sel_tournament_cur P (st_pop s) (length (st_pop s)) (st_cur s)) as S1.
+    destruct (sel_tournament _ _ _ _) as [sel c1]. cbn [snd] in S1.
+    pose proof (mate_loop_cur P sel c1) as S2.
+    destruct (mate_loop _ _ _) as [m c2]. cbn [snd] in S2.
+    pose proof (mut_loop_cur P m c2) as S3.
+    destruct (mut_loop _ _ _) as [u c3]. cbn [snd] in S3.
+    destruct (evaluate P sch g u) as [off' n]. cbn [commit st_cur]. unfold zlen in *. nia.
+  - pose proof (var_or_cur P (st_pop s) (p_lambda P) (st_cur s)) as S1.
+    destruct (var_or _ _ _ _) as [off c1]. cbn [snd] in S1.
+    destruct (evaluate P sch g off) as [off' n].
+    pose proof (sel_tournament_cur P (st_pop s ++ off') (p_mu P) c1) as S2.
+    destruct (sel_tournament _ _ _ _) as [pop' c2]. cbn [snd] in S2. cbn [commit st_cur]. nia.
+  - pose proof (var_or_cur P (st_pop s) (p_lambda P) (st_cur s)) as S1.
+    destruct (var_or _ _ _ _) as [off c1]. cbn [snd] in S1.
+    destruct (evaluate P sch g off) as [off' n].
+    pose proof (sel_tournament_cur P off' (p_mu P) c1) as S2.
+    destruct (sel_tournament _ _ _ _) as [pop' c2]. cbn [snd] in S2. cbn [commit st_cur]. nia.
 Qed.
 
 (* ------------------------------------------------------------------------------------------ *)
@@ -559,12 +585,7 @@ Proof.
 Qed.
 
 Lemma step_hof_consistent P sch op s : hof_consistent (st_hof s) -> hof_consistent (st_hof (step P sch op s)).
-Proof.
-  intro C. destruct op as [|g]; cbn [step].
-  - unfold finish; cbn [st_hof]. apply hof_update_consistent, C.
-  - destruct (sel_tournament _ _ _ _) as [sel c1]. destruct (mate_loop _ _ _) as [m c2].
-    destruct (mut_loop _ _ _) as [u c3]. unfold finish; cbn [st_hof]. apply hof_update_consistent, C.
-Qed.
+Proof. intro C. step_cases op; cbn [commit st_hof]; apply hof_update_consistent, C. Qed.
 
 Theorem run_hof_consistent P sch gs s :
   hof_consistent (st_hof s) -> hof_consistent (st_hof (run (step P sch) gs s)).
@@ -597,12 +618,7 @@ Proof.
 Qed.
 
 Lemma step_log_aligned P sch op s : log_aligned (st_log s) -> log_aligned (st_log (step P sch op s)).
-Proof.
-  intro C. destruct op as [|g]; cbn [step].
-  - unfold finish; cbn [st_log]. apply log_record_aligned, C.
-  - destruct (sel_tournament _ _ _ _) as [sel c1]. destruct (mate_loop _ _ _) as [m c2].
-    destruct (mut_loop _ _ _) as [u c3]. unfold finish; cbn [st_log]. apply log_record_aligned, C.
-Qed.
+Proof. intro C. step_cases op; cbn [commit st_log]; apply log_record_aligned, C. Qed.
 
 Theorem run_log_aligned P sch gs s : log_aligned (st_log s) -> log_aligned (st_log (run (step P sch) gs s)).
 Proof.
@@ -618,12 +634,7 @@ Lemma log_record_count lg g nevals pop : length (lb_recs (log_record lg g nevals
 Proof. unfold log_record; cbn [lb_recs]. rewrite app_length. cbn. lia. Qed.
 
 Lemma step_log_count P sch op s : length (lb_recs (st_log (step P sch op s))) = S (length (lb_recs (st_log s))).
-Proof.
-  destruct op as [|g]; cbn [step].
-  - unfold finish; cbn [st_log]. apply log_record_count.
-  - destruct (sel_tournament _ _ _ _) as [sel c1]. destruct (mate_loop _ _ _) as [m c2].
-    destruct (mut_loop _ _ _) as [u c3]. unfold finish; cbn [st_log]. apply log_record_count.
-Qed.
+Proof. step_cases op; cbn [commit st_log]; apply log_record_count. Qed.
 
 Theorem run_log_count P sch gs s :
   length (lb_recs (st_log (run (step P sch) gs s))) = (length gs + length (lb_recs (st_log s)))%nat.
